@@ -42,3 +42,15 @@ Theorem C45_push_on_write_present :
     r_warned s' = false /\ get_head b (r_remote s') = Some c /\ get_head b (r_primary s') = Some c.
 Proof. exact push_on_write_present. Qed.
 Print Assumptions C45_push_on_write_present.
+
+Theorem C45_replica_after_pull_current :
+  forall s, let s' := repl_step s RPull in
+    r_replica s' = r_remote s' /\ heads_real (r_replica s') (r_remote s') = true.
+Proof. exact replica_after_pull_current. Qed.
+Print Assumptions C45_replica_after_pull_current.
+
+Theorem C45_deleted_branch_gone_after_pull :
+  forall s b, let s' := repl_step (repl_step s (RDelete b)) RPull in
+    get_head b (r_remote s') = None /\ get_head b (r_replica s') = None.
+Proof. exact deleted_branch_gone_after_pull. Qed.
+Print Assumptions C45_deleted_branch_gone_after_pull.
